@@ -41,7 +41,7 @@ package pq
 
 //@ func (*PriorityQueue).lessThan
 //@   props C16 C08
-//@   bounded pq_merge heap order and k-way merge: all distributions of <= 6 keys (each value twice) over 3 inputs, two comparators, single faults at every position
+//@   bounded pq_merge heap after construction and k-way merge order: all distributions of <= 6 keys (each value twice) over 3 inputs, two comparators, single faults at every position
 //@   replay pq_merge
 //@   requires pq.comp != nil && i != nil && j != nil
 //@   ensures [strictly-less] r0 <==> cmpv(pq.comp, val(i.key), val(j.key)) < 0
